@@ -10,6 +10,8 @@ on spelling, statement position, operand order or branch order rather than on be
   flip     `if c {A} else {B}`  ->  `if !c {B} else {A}`
   arms     arms of matches over disjoint enum-variant patterns reversed
   unlet    an immutable temporary used once, first thing in the next statement, inlined there (inverse of letify)
+  iflet    two-armed `match e { P => A, _ => B }` turned into `if let P = e { A } else { B }`
+  foreach  `X.for_each(|p| body)` statements turned into `for p in X { body }`
   letify   the first-evaluated nested call of a statement hoisted into a fresh temporary `let`
 """
 import copy, os, sys
@@ -274,7 +276,70 @@ def t_unlet(fx):
     return n
 
 
-T = {"alpha": t_alpha, "noise": t_noise, "commute": t_commute, "flip": t_flip, "arms": t_arms, "letify": t_letify, "unlet": t_unlet}
+def t_foreach(fx):
+    """`X.for_each(|p| body);`  ->  `for p in X { body }`  (closures without `return`; same elements, same order)"""
+    n = 0
+    unit = fx["types"].index("()")
+    for fn in fx["fns"].values():
+        for b in list(_walk(fn.get("body"))):
+            if b.get("k") != "block":
+                continue
+
+            def conv(s):
+                nonlocal n
+                s0 = s
+                while s0 is not None and s0.get("k") == "blk" and not s0["b"]["stmts"] and s0["b"]["tail"] is not None:
+                    s0 = s0["b"]["tail"]
+                if s0 is None or s0.get("k") != "mcall" or s0.get("name") != "for_each" or len(s0["args"]) != 1:
+                    return s
+                cl = s0["args"][0]
+                while cl.get("k") == "blk" and not cl["b"]["stmts"] and cl["b"]["tail"] is not None:
+                    cl = cl["b"]["tail"]
+                if cl.get("k") != "closure" or len(cl["params"]) != 1 or any(y.get("k") == "ret" for y in _walk(cl["body"])):
+                    return s
+                if "rayon" in (s0.get("callee") or ""):
+                    return s
+                n += 1
+                body = cl["body"]
+                if body.get("k") != "blk":
+                    body = {"k": "blk", "b": {"k": "block", "stmts": [body], "tail": None}, "t": unit}
+                return {"k": "for", "pat": cl["params"][0], "iter": s0["recv"], "body": body, "loop_id": 6000000 + n, "id": 6000000 + n, "line": s0.get("line")}
+            b["stmts"] = [conv(s) for s in b["stmts"]]
+            if b["tail"] is not None:
+                t2 = conv(b["tail"])
+                if t2 is not b["tail"]:
+                    b["stmts"].append(t2)
+                    b["tail"] = None
+    return n
+
+
+def t_iflet(fx):
+    """`match e { P => A, _ / None => B }` (two arms, no guards, second arm binds nothing)  ->  `if let P = e { A } else { B }`"""
+    n = 0
+    for fn in fx["fns"].values():
+        for x in list(_walk(fn.get("body"))):
+            if x.get("k") == "match" and len(x.get("arms", [])) == 2 and all(a.get("guard") is None for a in x["arms"]) and x.get("src") in (None, "Normal"):
+                p2 = x["arms"][1]["pat"]
+                while p2.get("k") in ("ref", "deref"):
+                    p2 = p2["p"]
+                p1 = x["arms"][0]["pat"]
+                while p1.get("k") in ("ref", "deref"):
+                    p1 = p1["p"]
+                if p2.get("k") not in ("wild", "ppath") or p1.get("k") not in ("tstruct", "struct"):
+                    continue
+
+                def blk(e):
+                    return e if e.get("k") == "blk" else {"k": "blk", "b": {"k": "block", "stmts": [], "tail": e}, "t": e.get("t")}
+                new = {"k": "if", "c": {"k": "letx", "pat": x["arms"][0]["pat"], "init": x["scrut"], "line": x.get("line")},
+                       "th": blk(x["arms"][0]["body"]), "el": blk(x["arms"][1]["body"]), "t": x.get("t"), "line": x.get("line")}
+                for k_ in list(x.keys()):
+                    del x[k_]
+                x.update(new)
+                n += 1
+    return n
+
+
+T = {"alpha": t_alpha, "noise": t_noise, "commute": t_commute, "flip": t_flip, "arms": t_arms, "letify": t_letify, "unlet": t_unlet, "foreach": t_foreach, "iflet": t_iflet}
 
 
 def run(which, repo="/repo", quiet=False, props=None):
